@@ -73,6 +73,12 @@ def _parts(tier):
     return list(enums.compositions_with_zeros(N, 4)) + [c for c in enums.compositions(N) if len(c) == 5]
 
 
+def _chain_parts(tier):
+    if tier == "quick":
+        return list(enums.compositions_with_zeros(N, 2)) + [c for c in enums.compositions(N) if len(c) == 3]
+    return _parts(tier)
+
+
 METHODS = {"tasks": ("tasks", {}), "disk": ("disk", {}), "tasks-mb2": ("tasks", {"max_branch": 2}), "default": (None, {})}
 
 # ---- per-operation parameter alphabets: (quick, thorough)
@@ -106,6 +112,15 @@ DEDUP_SUBSET = {
 DEDUP_SPLIT = {"quick": (True, 1, 2), "thorough": (True, 1, 2, 3, 5)}
 DEDUP_METHODS = ("tasks", "disk")
 
+# depth-2 programs: a step that ESTABLISHES a hash partitioning on K1, then de-duplication on K2 (sub-, super-, equal or
+# unrelated key set) -- dask may skip the second shuffle only when the recorded partitioning really co-locates K2
+CHAIN_KEYS = ("ki", "ks", "ki+ks")
+CHAIN_STEP1 = ("dedup", "shuffle", "shuffle+elem")  # drop_duplicates(subset=K1, split_out) | shuffle(K1) | shuffle(K1) then assign
+CHAIN_NOUT1 = {"quick": (True, 2), "thorough": (True, 1, 2, 3)}  # split_out / npartitions of step 1 (True = keep count)
+CHAIN_STEP2 = ("dedup:ki", "dedup:ks", "dedup:ki+ks", "unique:ki", "unique:ks", "nunique:ki", "nunique:ks")
+CHAIN_STEP2_QUICK = ("dedup:ki", "dedup:ks", "dedup:ki+ks", "unique:ki", "nunique:ks")
+CHAIN_SPLIT2 = (1, 2, 3)
+
 UNIQUE_COL = {"quick": ("ki", "kf", "ks", "kc", "kn"), "thorough": ("ki", "kf", "ks", "kc", "kn", "kb", "kt", "ku")}
 UNIQUE_SPLIT = {"quick": (True, 1, 2), "thorough": (True, 1, 2, 3, 5)}
 
@@ -124,6 +139,10 @@ def RULE(tier):
         f"divisions) x {SETIDX_METHODS[tier]}: index sequence == pandas set_index().sort_index(), rows as labelled multiset. "
         f"drop_duplicates: subset {DEDUP_SUBSET[tier]} x keep first/last x split_out {DEDUP_SPLIT[tier]} x {DEDUP_METHODS} x ignore_index; "
         f"unique / nunique(dropna): {UNIQUE_COL[tier]} x split_out {UNIQUE_SPLIT[tier]} x shuffle method; DataFrame.nunique. "
+        f"depth-2 chains: {CHAIN_STEP1} on K1 in {CHAIN_KEYS} (split_out/npartitions {CHAIN_NOUT1[tier]}) then "
+        f"{CHAIN_STEP2_QUICK if tier == 'quick' else CHAIN_STEP2} with split_out {CHAIN_SPLIT2}"
+        f"{' over the ' + str(len(_chain_parts(tier))) + ' partitionings with <= 2 partitions incl. empty ones or exactly 3 non-empty' if tier == 'quick' else ''}: "
+        "surviving keys == pandas' chain, every kept row is an input row. "
         "non-trivial = >= 2 input partitions."
     )
 
@@ -146,6 +165,10 @@ def shards(tier):
     for col in UNIQUE_COL[tier]:
         out.append(("unique", col))
     out.append(("nunique-frame",))
+    for s1 in CHAIN_STEP1:
+        for k1 in CHAIN_KEYS:
+            for n1 in CHAIN_NOUT1[tier]:
+                out.append(("chain", s1, k1, n1))
     return out
 
 
@@ -162,7 +185,10 @@ def cases_of(shard, tier):
         _, by, m = shard
         two = "+" in by
         for parts in P:
-            for asc in ((True, False, (True, False), (False, True)) if two else (True, False)):
+            ascs = (True, False, (True, False), (False, True)) if two else (True, False)
+            if two and tier == "quick":
+                ascs = (True, (True, False))
+            for asc in ascs:
                 for nap in ("last", "first"):
                     for nout in SORT_NOUT[tier]:
                         yield ("sort", by, m, asc, nap, nout, parts)
@@ -185,7 +211,8 @@ def cases_of(shard, tier):
         _, col = shard
         for parts in P:
             for so in UNIQUE_SPLIT[tier]:
-                for m in ("default", "tasks", "disk"):
+                # default = tasks unless configured otherwise ("preferring order"): enumerated in the thorough tier only
+                for m in ("tasks", "disk") if tier == "quick" else ("default", "tasks", "disk"):
                     yield ("unique", col, m, so, parts)
                 for dropna in (True, False):
                     yield ("nunique", col, dropna, so, parts)
@@ -193,6 +220,12 @@ def cases_of(shard, tier):
         for parts in P:
             for dropna in (True, False):
                 yield ("nunique-frame", dropna, parts)
+    elif kind == "chain":
+        _, s1, k1, n1 = shard
+        for parts in _chain_parts(tier):
+            for s2 in CHAIN_STEP2_QUICK if tier == "quick" else CHAIN_STEP2:
+                for so in CHAIN_SPLIT2:
+                    yield ("chain", s1, k1, n1, s2, so, parts)
     else:
         raise ValueError(kind)
 
@@ -451,6 +484,74 @@ def plan(case, pdf):
             return ([("wrong-count", why)] if why else []), (kind, dropna)
 
         return (lambda: pdf.nunique(dropna=dropna)), (lambda: dfh.build(pdf, parts).nunique(dropna=dropna).compute()), check, "frame"
+
+    if kind == "chain":
+        _, s1, k1, n1, s2, so, parts = case
+        K1 = _cols(k1)
+        op2, k2 = s2.split(":")
+        K2 = _cols(k2)
+        src = pdf[["ki", "ks", "v"]]
+
+        def step1_pd():
+            if s1 == "dedup":
+                return src.drop_duplicates(subset=K1)
+            return src.assign(w=src["v"] + 1) if s1 == "shuffle+elem" else src
+
+        def f_pd():
+            r1 = step1_pd()
+            if op2 == "dedup":
+                return r1.drop_duplicates(subset=K2)
+            if op2 == "unique":
+                return pd.Series(r1[k2].unique(), name=k2)
+            return r1[k2].nunique()
+
+        def f_dd():
+            d = dfh.build(src, parts)
+            if s1 == "dedup":
+                d1 = d.drop_duplicates(subset=K1, split_out=n1)
+            else:
+                d1 = d.shuffle(K1, npartitions=None if n1 is True else n1, shuffle_method="tasks")
+                if s1 == "shuffle+elem":
+                    d1 = d1.assign(w=d1["v"] + 1)
+            if op2 == "dedup":
+                return d1.drop_duplicates(subset=K2, split_out=so).compute()
+            if op2 == "unique":
+                return d1[k2].unique(split_out=so).compute()
+            return d1[k2].nunique(split_out=so).compute()
+
+        def check(got, want):
+            problems = []
+            if op2 == "dedup":
+                # the row order after step 1 is unspecified, so WHICH duplicate represents a key in step 2 is not
+                # demanded: the surviving keys must be pandas', and every kept row must be one of the input rows
+                if not isinstance(got, pd.DataFrame) or list(got.columns) != list(want.columns):
+                    problems.append(("wrong-keys", f"columns {list(getattr(got, 'columns', []))} != {list(want.columns)}"))
+                else:
+                    why = dfh.equal(got[K2].reset_index(drop=True), want[K2].reset_index(drop=True), ordered=False, check_index=False)
+                    if why:
+                        problems.append(("wrong-keys", why))
+                    r1 = step1_pd()
+                    if s1 != "dedup":
+                        r1 = r1  # shuffle keeps every row
+                    else:
+                        r1 = src  # any input row with that K1 key may represent it only if it is pandas' first: checked by the depth-1 cases
+                    ok_rows = {tuple("~" if pd.isna(x) else repr(x) for x in r) for r in r1[["ki", "ks", "v"]].itertuples(index=False)}
+                    bad = [r for r in got[["ki", "ks", "v"]].itertuples(index=False) if tuple("~" if pd.isna(x) else repr(x) for x in r) not in ok_rows]
+                    if bad:
+                        problems.append(("rows-invented", f"rows not in the input: {bad}"))
+                outcome = (kind, s1, k1, s2, getattr(got, "shape", None))
+            elif op2 == "unique":
+                why = dfh.equal(got, want, ordered=False, check_index=False)
+                if why:
+                    problems.append(("values-differ", why))
+                outcome = (kind, s1, k1, s2, len(got))
+            else:
+                if int(got) != int(want):
+                    problems.append(("wrong-count", f"{got!r} != {want!r}"))
+                outcome = (kind, s1, k1, s2, int(got))
+            return problems, outcome
+
+        return f_pd, f_dd, check, f"{s1}-{k1}-{s2}"
 
     raise ValueError(kind)
 
